@@ -18,7 +18,7 @@ MANIFEST = dict(
     category='exploration',
     design_ref='DESIGN.md §3 C13, §2.6',
     technique='bounded-exhaustive enumeration of all labelled hypernym digraphs (n<=4, DAGs n=5) on the real code vs a reference graph model',
-    text='Every labelled digraph up to the node bound (self-loops, cycles, edge typings, pos colourings, hyponym-declaration modes) is loaded into the real SQLite store and every taxonomy function is compared with a plain-Python reference on every node / ordered pair / simulate_root value; termination is decided by a step budget counted in relation queries. Exhaustive within the bound, nothing sampled.',
+    text='Every labelled digraph up to the node bound (self-loops, cycles, edge typings, pos colourings, hyponym-declaration modes) is loaded into the real SQLite store and every taxonomy function is compared with a plain-Python reference on every node / ordered pair / simulate_root value; the n<=3 digraphs with self-loops and the loop-free 4-node digraphs are presented a second time in expanded mode - stored in an expand lexicon and seen from a lexicon that has bare ILI-linked synsets for only the first r nodes, all others appearing as *INFERRED* placeholders (per-node functions start from real synsets and from every placeholder navigation reaches, pair functions from real synsets); termination is decided by a step budget counted in relation queries. Exhaustive within the bound, nothing sampled.',
     note='lowest_common_hypernyms and simulate_root distances are compared exactly on DAGs only (depth is not a function of the node on cyclic graphs); graphs with >=6 nodes and the "random larger" half of the quantifier are outside the bound.',
 )
 BATCH = 128
@@ -413,7 +413,7 @@ def run(tier, seed, jobs=None):
     cases = [{'graphs': gs[i:i + BATCH]} for i in range(0, len(gs), BATCH)]
     rule = ('every labelled hypernym digraph: n<=3 with self-loops; edge typings '
             'hypernym/instance_hypernym; hyponym-declaration modes; pos colourings; all '
-            'loop-free digraphs on 4 nodes' +
+            'loop-free digraphs on 4 nodes; the n<=3 graphs (r=1..n real nodes) and the 4-node loop-free graphs (r=1,2; thorough r=1..4) again in expanded mode with *INFERRED* placeholders' +
             ('; all digraphs with self-loops on 4 nodes; all DAGs on 5 nodes' if tier == 'thorough' else '') +
             '. Each graph: every node, ordered pair, simulate_root value, every taxonomy function '
             'vs the plain-Python reference. Non-trivial = graph has >=1 edge; distinct = distinct '
